@@ -103,7 +103,7 @@ class Rotation:
     @staticmethod
     def rotation_size(message, file, size_limit):
         file.seek(0, 2)
-        return file.tell() + len(message) > size_limit
+        return file.tell() + len(message.encode(file.encoding, file.errors)) > size_limit
 
     class RotationTime:
         def __init__(self, step_forward, time_init=None, weekday=None):
